@@ -2,4 +2,4 @@
 # usage: seed_batch.sh <parallelism> <seed ids...> : confirm each seeded change and run the quick check against it
 P=$1; shift
 cd "$(dirname "$0")"
-printf '%s\n' "$@" | xargs -P "$P" -I{} sh -c 'python3 tools_seed.py confirm seeded/{} > seeded/{}/confirm.log 2>&1; python3 tools_seed.py run seeded/{} quick > seeded/{}/detect.log 2>&1; echo "{} $(jq -c "{confirmed,applies,tests_pass,demo_fails_with_change,demo_passes_without}" seeded/{}/confirm.json) detected=$(jq -c .detected seeded/{}/detect-quick.json)"'
+printf '%s\n' "$@" | xargs -P "$P" --process-slot-var=SEED_SLOT -I{} sh -c 'export SEED_SLOT; [ -f seeded/{}/confirm.json ] && [ "$(jq -r .confirmed seeded/{}/confirm.json)" = true ] || python3 tools_seed.py confirm seeded/{} > seeded/{}/confirm.log 2>&1; python3 tools_seed.py run seeded/{} quick > seeded/{}/detect.log 2>&1; echo "{} $(jq -c "{confirmed,applies,tests_pass,demo_fails_with_change,demo_passes_without}" seeded/{}/confirm.json) detected=$(jq -c .detected seeded/{}/detect-quick.json)"'
